@@ -566,12 +566,27 @@ Example create_nonvacuous :
 Proof. repeat split; reflexivity. Qed.
 
 (* ================================================================ providers *)
-Theorem provider_resource_referenced_proof : forall (rs : list resource) (ops : list (signal * nat)),
-  Forall2 (fun op it => match nth_error rs (snd op) with
-                        | Some r => it = Some (mk_item_obs (Some (snd op)) r)
-                        | None => it = None
-                        end) ops (run_emits rs ops).
+Definition observed (op : pop) : option nat :=
+  match op with PE _ i => Some i | PK _ i => Some i | _ => None end.
+
+(* For every script and every state of the meters - so for collections that carry data and for collections that
+   carry none alike - the items the exporters / reader callbacks receive are, one per emitting or collecting
+   operation and in order, items referencing the resource of the provider the operation went through. *)
+Theorem provider_resource_referenced_proof : forall (rs : list resource) (ops : list pop) (st : pstate),
+  map (option_map fst) (run_pops rs st ops) =
+  map (fun i => option_map (fun r => mk_item_obs (Some i) r) (nth_error rs i))
+      (flat_map (fun op => match observed op with Some i => [i] | None => [] end) ops).
 Proof.
-  intros rs ops. unfold run_emits. induction ops as [|op ops IH]; cbn; constructor; auto.
-  unfold emit. destruct (nth_error rs (snd op)); reflexivity.
+  intros rs ops. induction ops as [|op ops IH]; intros st; [reflexivity|].
+  destruct op as [sg i|i|i|i|d i]; cbn [run_pops pstep flat_map observed app map]; rewrite ?IH; try reflexivity.
+  - unfold item_of. destruct (nth_error rs i); reflexivity.
+  - unfold item_of. destruct (nth_error rs i); reflexivity.
 Qed.
+
+Example provider_resource_referenced_nonvacuous :
+  let r0 := mk_res [(bs "a", VInt 1)] [] in
+  let r1 := mk_res [(bs "b", VInt 2)] (bs "s") in
+  run_emits [r0; r1] [PK false 0; PG 1; PK true 1; PA 1; PK true 1; PK true 1; PE SigSpan 0] =
+  [Some (mk_item_obs (Some 0%nat) r0, false); Some (mk_item_obs (Some 1%nat) r1, false);
+   Some (mk_item_obs (Some 1%nat) r1, true); Some (mk_item_obs (Some 1%nat) r1, true); Some (mk_item_obs (Some 0%nat) r0, true)].
+Proof. reflexivity. Qed.
